@@ -153,6 +153,14 @@ qb_loop_run(struct qb_loop *lp)
 	}
 	l->stop_requested = QB_FALSE;
 
+	/*
+	 * items that were queued for dispatch when a previous run was
+	 * stopped must not wait for the poll timeout
+	 */
+	for (p = QB_LOOP_HIGH; p >= QB_LOOP_LOW; p--) {
+		remaining_todo += l->level[p].todo;
+	}
+
 	do {
 		if (p_stop == QB_LOOP_LOW) {
 			p_stop = QB_LOOP_HIGH;
